@@ -216,6 +216,11 @@ def round (x : Rat) : Int :=
   let r := x - (fl : Rat)
   if r < 1 / 2 then fl else if 1 / 2 < r then fl + 1 else if fl % 2 = 0 then fl else fl + 1
 
+/-- `d.values()` of an insertion-ordered dict, in insertion order -/
+def dictValues {κ β} (d : List (κ × β)) : List β := d.map (fun p => p.2)
+/-- `a.isdisjoint(b)` on sets -/
+def setDisjoint {α} [DecidableEq α] (a b : List α) : Bool := a.all (fun x => !b.contains x)
+
 end Mofun.Generated.Py
 
 namespace Mofun.Generated.Code
@@ -767,5 +772,43 @@ def replaceSampleSize_default_replace_fraction : Rat := (Dec.toRat ⟨10, 1⟩)
 /-- translated from `replace_pattern_in_structure` in mofun/mofun.py (FRAGMENT: the number of matches `random.sample` is asked for, `round(replace_fraction * len(match_positions))`) -/
 def replaceSampleSize (replace_fraction : Rat) (num_matches : Nat) : Int :=
   (Py.round (replace_fraction * ((num_matches : Nat) : Rat)))
+
+/-- the default `replace_all=False` of `replace_pattern_in_structure` -/
+def replaceIndexMap_default_replace_all : Bool := false
+
+/-- translated from `replace_pattern_in_structure` in mofun/mofun.py (FRAGMENT: the structure_index_map of one match — `{}`, then for `not replace_all` the dict comprehension `{k: match_indices[m_i][v] for k, v in replace2search_pattern_map.items()}`; `none` = IndexError) -/
+def replaceIndexMap (replace_all : Bool) (match_indices : List (List Nat)) (m_i : Nat) (replace2search_pattern_map : List (Nat × Nat)) : Option (List (Nat × Nat)) := do
+  let structure_index_map : List (Nat × Nat) := []
+  if (!replace_all) then
+    let t3 ← (Py.dictCompM? replace2search_pattern_map (fun (k, v) => (do let t1 ← (match_indices[m_i]?); let t2 ← (t1[v]?); pure (k, t2))))
+    let structure_index_map : List (Nat × Nat) := t3
+    pure structure_index_map
+  else
+    pure structure_index_map
+
+/-- translated from `replace_pattern_in_structure` in mofun/mofun.py (FRAGMENT: the atoms one match wants deleted, `set(match_indices[m_i]) - set(structure_index_map.values())`; `none` = IndexError) -/
+def replaceDeleteLinker (match_indices : List (List Nat)) (m_i : Nat) (structure_index_map : List (Nat × Nat)) : Option (List Nat) := do
+  let t1 ← (match_indices[m_i]?)
+  pure (Py.setDiff t1 (Py.dictValues structure_index_map))
+
+/-- the default `ignore_atoms_should_not_be_deleted_twice=False` of `replace_pattern_in_structure` -/
+def replaceMergeDelete_default_ignore_atoms_should_not_be_deleted_twice : Bool := false
+
+/-- translated from `replace_pattern_in_structure` in mofun/mofun.py (FRAGMENT: the deletion set after one match — the `if to_delete.isdisjoint(…) or ignore…:` statement with both outcomes; `none` = `raise AtomsShouldNotBeDeletedTwice()`) -/
+def replaceMergeDelete (ignore_atoms_should_not_be_deleted_twice : Bool) (to_delete : List Nat) (to_delete_linker : List Nat) : Option (List Nat) := do
+  if ((Py.setDisjoint to_delete to_delete_linker) || ignore_atoms_should_not_be_deleted_twice) then
+    let to_delete : List Nat := (Py.setUnion to_delete to_delete_linker)
+    pure to_delete
+  else
+    none  -- raise
+
+/-- translated from `replace_pattern_in_structure` in mofun/mofun.py (FRAGMENT: is the replacement empty, i.e. is this a pure deletion) -/
+def replaceEmptyBranch (replace_pattern_len : Nat) : Bool :=
+  (replace_pattern_len == 0)
+
+/-- translated from `replace_pattern_in_structure` in mofun/mofun.py (FRAGMENT: the deletion set of the empty-replacement branch, `to_delete |= set([idx for match in match_indices for idx in match])`) -/
+def replaceEmptyDelete (to_delete : List Nat) (match_indices : List (List Nat)) : List Nat :=
+  let to_delete : List Nat := (Py.setUnion to_delete (List.flatten (List.map (fun match_ => (List.map (fun idx => idx) match_)) match_indices)))
+  to_delete
 
 end Mofun.Generated.Code
